@@ -158,6 +158,35 @@ func C06(c *core.Ctx) {
 			})
 		}
 	}
+	// sibling groups with exactly equal valued totals, each the sum of several children with
+	// "unround" amounts (ties between inner nodes; float-summation-order hazards)
+	for k := 0; k < c.Pick(4, 30); k++ {
+		k := k
+		add("journal", fmt.Sprintf("equal sibling totals %d, balance -v", k), func(dir string) []string {
+			r := rand.New(rand.NewSource(c.Seed*31337 + int64(k)))
+			groups := []string{"Anna", "Ben", "Cleo", "Dan"}[:2+r.Intn(3)]
+			kids := []string{"Food", "Rent", "Fun", "Car", "Misc"}[:3+r.Intn(3)]
+			amts := make([]string, len(kids))
+			for i := range amts {
+				amts[i] = fmt.Sprintf("%d.%02d", 1+r.Intn(30000), 1+r.Intn(98))
+			}
+			var b strings.Builder
+			b.WriteString("2020-01-01 open Assets:Bank\n")
+			for _, g := range groups {
+				for _, kd := range kids {
+					fmt.Fprintf(&b, "2020-01-01 open Expenses:%s:%s\n", g, kd)
+				}
+			}
+			b.WriteString("\n")
+			for gi, g := range groups {
+				for ki, kd := range kids {
+					fmt.Fprintf(&b, "2020-02-%02d \"spend\"\nAssets:Bank Expenses:%s:%s %s CHF\n\n", 1+gi+ki, g, kd, amts[ki])
+				}
+			}
+			os.WriteFile(filepath.Join(dir, "main.knut"), []byte(b.String()), 0o644)
+			return []string{"balance", "--color=false", "-v", "CHF", "main.knut"}
+		})
+	}
 	// many files that all mention the same not-yet-registered commodities at the same time
 	for k := 0; k < c.Pick(2, 6); k++ {
 		k := k
